@@ -94,6 +94,7 @@ Definition s_delete (d : sdb) (t : tid) (lo hi : option Z) (y : stx) : option st
             (slive (range_of lo hi false (swork t y1))) (Some y1).
 
 Definition sdml (d : sdb) (o : op) (y : stx) : option stx :=
+  if y_ro y then None else
   match o with
   | OInsert t pk v => s_put_row d true t pk v y
   | OInsert2 t pk1 v1 pk2 v2 => obind (s_put_row d true t pk1 v1 y) (s_put_row d true t pk2 v2)
